@@ -13,6 +13,7 @@
 //	R8 time.Sleep / time.After / time.NewTicker -> simrt equivalents (tracked, stoppable)
 //	R9 uuid.NewV4 / uuid.New                -> simrt.NewUUID (seeded, per node)
 //	R10 replica.(*Replica).openFile         -> result wrapped by simrt.WrapDisk (data-file fault seam)
+//	R11 for-loops that poll with time.Sleep  -> simrt.PollPoint() at the top of the body (the condition is read at quiescence)
 //	R6 error-inject/default.go              -> hooks calling simrt.Hook
 //	R7 app: RegisterFrontend helper
 //
@@ -52,7 +53,7 @@ func die(format string, a ...interface{}) {
 }
 
 type stats struct {
-	mutex, gostmt, maprange, net, nodevar, timer, disk int
+	mutex, gostmt, maprange, net, nodevar, timer, disk, poll int
 }
 
 func main() {
@@ -142,7 +143,7 @@ func main() {
 	if err := os.WriteFile(filepath.Join(dir, "go.mod"), gm, 0644); err != nil {
 		die("go.mod: %v", err)
 	}
-	fmt.Printf("instrument: mutex=%d go=%d maprange=%d net=%d nodevar=%d timer=%d disk=%d\n", st.mutex, st.gostmt, st.maprange, st.net, st.nodevar, st.timer, st.disk)
+	fmt.Printf("instrument: mutex=%d go=%d maprange=%d net=%d nodevar=%d timer=%d disk=%d poll=%d\n", st.mutex, st.gostmt, st.maprange, st.net, st.nodevar, st.timer, st.disk, st.poll)
 	if st.disk != 1 {
 		die("R10: expected exactly one replica.openFile returning sparse.NewDirectFileIoProcessor(...), rewrote %d", st.disk)
 	}
@@ -291,6 +292,30 @@ func rewriteFile(fset *token.FileSet, p *packages.Package, f *ast.File, rel stri
 
 	post := func(c *astutil.Cursor) bool {
 		switch n := c.Node().(type) {
+		case *ast.ForStmt:
+			// R11: a loop that polls with Sleep reads state that other goroutines write without
+			// synchronisation (holeDrainer's flag, rpc Client.Close's readExit/writeExit, ...). Whether
+			// it sees a write made in the same quiescent step would depend on the Go scheduler; a
+			// poll point (1 ns of simulated time) makes it read after everybody else has run.
+			// (only loops whose body sleeps unconditionally, as a direct statement: `for { if done { break }; Sleep(d) }`;
+			// a Sleep nested in an error branch - the puncher's retry - does not make its loop a poller)
+			polls := false
+			for _, x := range n.Body.List {
+				if es, ok := x.(*ast.ExprStmt); ok {
+					if ce, ok := es.X.(*ast.CallExpr); ok {
+						if se, ok := ce.Fun.(*ast.SelectorExpr); ok && se.Sel.Name == "Sleep" {
+							if id, ok := se.X.(*ast.Ident); ok && id.Name == "simrt" {
+								polls = true
+							}
+						}
+					}
+				}
+			}
+			if polls {
+				n.Body.List = append([]ast.Stmt{&ast.ExprStmt{X: &ast.CallExpr{Fun: sel("PollPoint")}}}, n.Body.List...)
+				st.poll++
+				changed = true
+			}
 		case *ast.GoStmt:
 			st.gostmt++
 			changed = true
